@@ -8,10 +8,10 @@ package executor
 //@ props C08 C10
 //@ params ctx
 //@ returns res, err
-//@ modifies fresh, entries(map[string]interface{}), elems(interface{})
+//@ modifies fresh, entries(map[string]interface{}), elems(interface{}), elems(map[string]interface{}), global(queryer.QueryCalls)
 //@ end
 
 //@ func (ParallelExecutor).Execute
 //@ props C09
-//@ modifies-assumed fresh, entries(map[string]interface{}), elems(interface{})
+//@ modifies-assumed fresh, entries(map[string]interface{}), elems(interface{}), elems(map[string]interface{}), global(queryer.QueryCalls)
 //@ end
